@@ -155,6 +155,55 @@ def rule_L1(prog, fixture=False):
         else:
             res.add(base + ":lock", DISCHARGED, where, "%s honours the lock" % f.short,
                     "all %d writes of %s are reached only with %s false" % (len(W), "/".join(fields), flag), func=f.name)
+        # (a2) the update is skipped by nothing but the lock / the configured method: a data-dependent skip drops samples
+        #      from the recursion (RLS then no longer solves the weighted least-squares problem)
+        ret0 = [n for n in f.walk() if n.k == "ReturnStmt" and n.c]
+        data_bad = None
+        for (n, fld) in W:
+            for fact in f.facts_at(n):
+                if fact.belief:
+                    continue
+                for (c, p) in atoms_of(fact.cond, fact.pol):
+                    deps = flow.deps(c)
+                    if any(a[0] == "parm" and a[2] == "content" for a in deps):
+                        data_bad = (n, c, p)
+        if data_bad:
+            n, c, p = data_bad
+            res.add(base + ":update-unconditional", VIOLATED, "%s:%d" % (prog.rel(f.file), c.line), "%s adapts on every sample" % f.short,
+                    "the coefficient update %s (line %d) is reached only when the data-dependent condition %s is %s: samples are "
+                    "dropped from the recursion by something other than the lock" % (n.text(), n.line, c.text(), str(p).lower()), func=f.name)
+        else:
+            res.add(base + ":update-unconditional", DISCHARGED, where, "%s adapts on every sample" % f.short,
+                    "the only conditions in front of the update are the lock flag and object configuration", func=f.name)
+        # (a3) state that follows the input stream advances whether or not the filter is locked
+        all_fields = [x["name"] for x in cj["fields"]] if cj else []
+        others = [x for x in all_fields if x not in fields and x != flag]
+        OW = field_writes(f, flow, others)
+        frozen = None
+        for (n, fld) in OW:
+            behind_lock = False
+            for fact in f.facts_at(n):
+                if fact.belief:
+                    continue
+                for (c, p) in atoms_of(fact.cond, fact.pol):
+                    if _lock_false(c, p, flag, prog):
+                        behind_lock = True
+            if not behind_lock:
+                continue
+            rhs_nodes = n.c[1:] if n.k != "CXXOperatorCallExpr" else n.c[2:]
+            deps = set()
+            for r in rhs_nodes:
+                deps |= flow.deps(r)
+            if any(a[0] == "parm" and a[2] == "content" for a in deps):
+                frozen = (n, fld)
+        if frozen:
+            n, fld = frozen
+            res.add(base + ":history-advances", VIOLATED, "%s:%d" % (prog.rel(f.file), n.line), "%s keeps its signal history while locked" % f.short,
+                    "%s updates the member %s from the input samples only while the filter is unlocked: the state misses the samples "
+                    "processed under the lock and is wrong after unlocking" % (n.text(), fld), func=f.name)
+        else:
+            res.add(base + ":history-advances", DISCHARGED, where, "%s keeps its signal history while locked" % f.short,
+                    "%d write(s) of input-following members (%s) are independent of the lock" % (len(OW), ", ".join(sorted({x for (_, x) in OW})) or "none"), func=f.name)
         # (c) a-priori order inside the sample loop
         loops = []
         for (n, fld) in W:
